@@ -21,6 +21,7 @@ fn main() {
         "reflect" => reflect::run(&out),
         "c13" => c13::run(&out, seed, thorough),
         "c14" => c14::run(&out, seed, thorough),
+        "c14-probe" => c14::probe_main(),
         _ => { eprintln!("usage: hx <reflect|c13|...> --out DIR [--seed N] [--tier quick|thorough]"); std::process::exit(2); }
     };
     if let Err(e) = r { eprintln!("hx {}: error: {}", cmd, e); std::process::exit(3); }
